@@ -475,6 +475,19 @@ func TestCheck(t *testing.T) {
 			}
 		}
 	}
+	// wide right-hand sides (the coder reduces against as many columns as there are data shards)
+	for _, n := range []int{2, 3, 5, 9} {
+		for _, w := range []int{255, 256, 257, 300, 512, 513, 700, 1030} {
+			for _, f := range families {
+				idx++
+				if !cfg.Mine(idx) {
+					continue
+				}
+				rec.Class("rhs-wider-than-256-columns")
+				do(Case{Family: f, N: n, RHS: w, Seed: uint64(n*100000 + w*8), Param: idx % n}) // the right-hand side shape (random, (N|I), I, (I|N), zero) varies with the width
+			}
+		}
+	}
 	// rectangular products (r x k) * (k x c) for a range of row counts
 	for r := 1; r <= cfg.N(140, 330); r += 1 + r/24 {
 		idx++
@@ -523,7 +536,7 @@ func TestCheck(t *testing.T) {
 		default:
 			n = rapid.IntRange(1, 40).Draw(rt, "n")
 		}
-		c := Case{Family: rapid.SampledFrom(families).Draw(rt, "family"), N: n, RHS: rapid.IntRange(1, 8).Draw(rt, "rhs"),
+		c := Case{Family: rapid.SampledFrom(families).Draw(rt, "family"), N: n, RHS: rapid.OneOf(rapid.IntRange(1, 8), rapid.IntRange(1, 8), rapid.IntRange(250, 600)).Draw(rt, "rhs"),
 			Seed: rapid.Uint64Range(1, 1<<48).Draw(rt, "seed"), Param: rapid.IntRange(0, 1000).Draw(rt, "param")}
 		if !do(c) {
 			rt.Fatalf("matrix check failed")
